@@ -47,7 +47,7 @@ def build_harness():
     hdir = os.path.join(ROOT, "harness")
     # go.sum of the harness module = union of the repository modules' sums (offline, no proxy)
     sums = set()
-    for m in ("module", "minter-connector"):
+    for m in ("module", "minter-connector", "keys-generator"):
         p = os.path.join(REPO, m, "go.sum")
         if os.path.exists(p):
             sums.update(open(p).read().splitlines())
@@ -71,7 +71,14 @@ def build_harness():
     if p.returncode != 0:
         sys.stdout.write(p.stdout.decode(errors="replace")[-4000:])
         raise Infra("connector driver build failed (does /repo/minter-connector still compile?)")
-    return binp, dt + dt2
+    # the operators' key tool (signature for MsgDelegateKeys), a verbatim copy of keys-generator's main.go
+    kg = os.path.join(WORK, "bin", "vkeygen")
+    p, dt3 = run(["go", "build", "-tags", "verif", "-o", kg, "./gen/keygenmain"], 900, env=GOENV, cwd=hdir)
+    if p.returncode != 0:
+        sys.stdout.write(p.stdout.decode(errors="replace")[-4000:])
+        raise Infra("key tool build failed (does /repo/keys-generator still compile?)")
+    os.environ["VERIF_KEYGEN"] = kg
+    return binp, dt + dt2 + dt3
 
 
 # ------------------------------------------------------------------------------------------- TLC
